@@ -4,7 +4,7 @@ tier="${1:-quick}"; n="${2:-4}"
 out=/verif/neutral/RESULTS.md
 tmp=$(mktemp -d /tmp/neutral-XXXXXX)
 i=0
-for d in /verif/neutral/C*-*/ /verif/neutral/w2-C*-*/; do [ -d "$d" ] || continue; id=$(basename $d); s=$((i % n)); mkdir -p $tmp/s$s/$id; cp $d/patch.diff $tmp/s$s/$id/; i=$((i+1)); done
+for d in /verif/neutral/C*-*/ /verif/neutral/w2-C*-*/ /verif/neutral/w3-C*-*/; do [ -d "$d" ] || continue; id=$(basename $d); s=$((i % n)); mkdir -p $tmp/s$s/$id; cp $d/patch.diff $tmp/s$s/$id/; i=$((i+1)); done
 for s in $(seq 0 $((n-1))); do /verif/tools/try_neutral_all.sh $tmp/s$s $tier > $tmp/log$s 2>&1 & done
 wait
 cat $tmp/log* > $tmp/log
